@@ -324,6 +324,9 @@ def find_irrelevant_type(etype: tp.Type, types: List[tp.Type],
             return choose_type(types, only_regular=True)
         else:
             etype = etype.bound
+            if isinstance(etype, tp.TypeParameter):
+                # The bound is itself a type variable: look at its bound.
+                return find_irrelevant_type(etype, types, factory)
 
     types = [_cls2type(t) for t in types]
     supertypes = find_supertypes(etype, types, include_self=True,
